@@ -1179,17 +1179,14 @@ def rule_graph_cycle(ctx):
     # self loop
     eqs = [c for c in ae.find_calls(lambda c: c.qname == 'std::cmp::PartialEq::eq' and len(c.args) == 2)]
     eqs = [c for c in eqs if {tuple(sorted(o.key for o in strip_path(ae.orig_operand(a)) if o.kind == 'arg')) for a in c.args} == {(2,), (3,)}]
-    good = False
-    if eqs:
-        te = [n for n, gd in guard_edges_on_call(ae, eqs[0]) if gd.truth() is True]
-        fe = [n for n, gd in guard_edges_on_call(ae, eqs[0]) if gd.truth() is False]
+    def self_loop_test(eq):
+        te = [n for n, gd in guard_edges_on_call(ae, eq) if gd.truth() is True]
+        fe = [n for n, gd in guard_edges_on_call(ae, eq) if gd.truth() is False]
         ok = bool(te)
         for e in te:
             seen = ae.reach([e], avoid=inf)
             defs = [d for d in ae.defs.get(0, []) if d[1] in seen]
             for d in defs:
-                if not (d[0] == 'stmt' and d[3]['k'] == 'aggr' and d[3]['ak'].get('variant') == 'Err' and ae.dep_is_cycle(d) if hasattr(ae, 'dep_is_cycle') else True):
-                    ok = False
                 if d[0] == 'stmt' and d[3]['k'] == 'aggr' and d[3]['ak'].get('variant') == 'Err':
                     po = ae.orig_operand(F.operand(d[3]['ops'][0]))
                     names = {ae.blocks[o.key[0]]['stmts'][o.key[1]]['rv']['ak'].get('variant') for o in po if o.kind == 'aggr'}
@@ -1205,7 +1202,9 @@ def rule_graph_cycle(ctx):
         seen = ae.reach([0], avoid=ctx.both(inf, lambda n: n in fe))
         if any(c.bb in seen for c in allm):
             ok = False
-        good = ok
+        return ok
+    # some comparison of src with dst is the self-loop test (another one, e.g. inside an assertion, does not matter)
+    good = any(self_loop_test(eq) for eq in eqs)
     R.ob('C07G-self-loop', ae.path, good, 'src == dst is answered Err(CycleDetected) before anything is modified' if good else 'a self-loop is not rejected as a cycle before the graph is modified', ctx.where(ae), props=('C07', 'C10'))
     # forward search: bound = rank(src), start = dst; Err propagated
     fw = [c for c in ae.calls.values() if F.callee_body(c) is not None and F.callee_body(c).crate == 'pie_graph' and type_head(c.dest_ty) == 'std::result::Result' and not ae.blocks[c.bb]['cleanup']]
